@@ -153,6 +153,7 @@ func init() {
 		fr.i.fsHook = a[0]
 		return nil
 	})
+	add("IsNative", func(fr *frame, a []value) value { return false })
 	add("TempRoot", func(fr *frame, a []value) value { return "/zzv" })
 	add("PutFile", func(fr *frame, a []value) value {
 		fr.i.fsSet(a[0].(string), a[1].(string))
